@@ -270,6 +270,30 @@ func hungFrame(dump string) (fn string, stack string) {
 	return "", ""
 }
 
+// blockedFrame returns the innermost kevo function of the main goroutine (goroutine 1) when it is blocked on a lock,
+// channel or wait group inside kevo code.
+func blockedFrame(dump string) (fn string, stack string) {
+	for _, g := range strings.Split(dump, "\n\n") {
+		head, _, _ := strings.Cut(g, "\n")
+		if !strings.HasPrefix(head, "goroutine 1 [") {
+			continue
+		}
+		if !(strings.Contains(head, "Mutex") || strings.Contains(head, "semacquire") || strings.Contains(head, "chan ") || strings.Contains(head, "select") || strings.Contains(head, "WaitGroup") || strings.Contains(head, "Cond")) {
+			return "", ""
+		}
+		for _, l := range strings.Split(g, "\n") {
+			if strings.HasPrefix(l, "github.com/KevoDB/kevo/pkg/") && !strings.Contains(l, "/zzverif/") && !strings.Contains(l, ".Verif") {
+				f := strings.TrimPrefix(l, "github.com/KevoDB/kevo/pkg/")
+				if i := strings.LastIndex(f, "("); i > 0 {
+					f = f[:i]
+				}
+				return f, g
+			}
+		}
+	}
+	return "", ""
+}
+
 func stallWatch(id, unit, outPath string) {
 	lim := stallLimit()
 	for {
@@ -286,14 +310,23 @@ func stallWatch(id, unit, outPath string) {
 		buf := make([]byte, 4<<20)
 		buf = buf[:runtime.Stack(buf, true)]
 		fn, stack := hungFrame(string(buf))
+		how := "is still executing"
 		if fn == "" {
-			// nothing of kevo is running: blocked, not spinning; leave it to the unit's own deadline handling and the parent's watchdog
-			continue
+			// nothing of kevo is running: the evaluation is blocked. Under the controlled scheduler that is the
+			// scheduler's business (deadlock witness); elsewhere it is a hang too, after a longer wait
+			if time.Since(at) < lim+45*time.Second {
+				continue
+			}
+			fn, stack = blockedFrame(string(buf))
+			if fn == "" {
+				continue
+			}
+			how = "is blocked in"
 		}
 		res := NewResult()
 		res.Exhaustive = false
 		res.Caps = append(res.Caps, "unit "+unit+" stopped at an evaluation that did not return")
-		res.Violate(FP("hang", id, fn), fmt.Sprintf("an evaluation did not return within %ds and is still executing %s (livelock / unbounded loop): case %s", int(lim/time.Second), fn, cur), unit,
+		res.Violate(FP("hang", id, fn), fmt.Sprintf("an evaluation did not return within %ds and %s %s (livelock / unbounded loop / self-deadlock): case %s", int(time.Since(at)/time.Second), how, fn, cur), unit,
 			map[string]any{"unit": unit, "kind": "hang", "case": cur, "function": fn, "stack": tail(stack, 3000)})
 		b, _ := json.Marshal(res)
 		os.WriteFile(outPath, b, 0644)
@@ -584,6 +617,20 @@ func runWorker(exe, id, tier, unit, out string, deadline time.Time, seed int) *R
 		}
 	}
 	r, msg := attempt()
+	if r == nil && msg == "worker exceeded watchdog" && !strings.HasSuffix(exe, "-race") {
+		// Units look at their deadline between evaluations and return; a unit still running 90 s after it is one
+		// whose current evaluation does not return. Re-running it after the deadline would return at once with
+		// nothing evaluated and hide that.
+		res := NewResult()
+		res.Exhaustive = false
+		prog := "(no case recorded)"
+		if p, perr := os.ReadFile(out + ".progress"); perr == nil {
+			prog = string(p)
+		}
+		res.Violate(FP("hang", id, unit), fmt.Sprintf("unit %s was still running 90 s after its deadline: an evaluation does not return; last case: %s", unit, prog), unit,
+			map[string]any{"unit": unit, "kind": "hang", "case": prog})
+		return res
+	}
 	if strings.HasSuffix(exe, "-race") {
 		// race reports of the -race build are the witnesses, whether or not the unit completed
 		files, _ := filepath.Glob(out + ".race*")
